@@ -114,9 +114,13 @@ class Translator:
             return 'F64'
         if q == 'bool':
             return 'bool'
+        if q == 'void':
+            return 'unit'
+        if q == 'char':
+            return 'Z'
         if q in ('int', 'long', 'ssize_t'):
             return 'Z'
-        if q in ('ndsize_t', 'unsigned long long', 'size_t', 'unsigned long', 'vector::size_type', 'size_type'):
+        if q in ('ndsize_t', 'unsigned long long', 'size_t', 'unsigned long', 'vector::size_type', 'size_type') or q.endswith('::size_type'):
             return 'Z'
         if q in self.enums:
             return q
@@ -138,7 +142,7 @@ class Translator:
     @staticmethod
     def is_unsigned(qt):
         q = qt.replace('const ', '').replace('nix::', '').replace('std::', '').strip()
-        return q in ('ndsize_t', 'unsigned long long', 'size_t', 'unsigned long', 'vector::size_type', 'size_type')
+        return q in ('ndsize_t', 'unsigned long long', 'size_t', 'unsigned long', 'vector::size_type', 'size_type') or q.endswith('::size_type')
 
     # ---------------------------------------------------------------- enums / records
     def add_enum(self, decl):
@@ -201,8 +205,12 @@ class Translator:
             obj = me['inner'][0]
             if nm == 'operator bool':
                 return ('optbool', obj)
-            if nm == 'size':
+            if nm == 'size' or nm == 'length':
                 return ('size', obj)
+            if nm == 'empty':
+                return ('empty', obj)
+            if nm == 'find' and self.is_string(obj):
+                return ('find', obj, inner[1])
             oq = self.strip(obj)
             rec = self.rec_of(oq)
             if rec:
@@ -217,6 +225,8 @@ class Translator:
                 return ('deref', args[0])
             if nm == 'operator!' and self.is_optional(args[0]):
                 return ('optnot', args[0])
+            if nm == 'operator[]' and self.is_string(args[0]):
+                return ('stridx', args[0], args[1])
             if nm == 'operator=':
                 return ('assign', args[0], args[1])
             rec = self.rec_of(self.strip(args[0]))
@@ -252,7 +262,7 @@ class Translator:
             return b, t
         if k == 'ImplicitCastExpr' or k == 'CXXStaticCastExpr' or k == 'CXXFunctionalCastExpr':
             ck = n.get('castKind')
-            if ck in ('LValueToRValue', 'NoOp', 'FunctionToPointerDecay', 'ConstructorConversion'):
+            if ck in ('LValueToRValue', 'NoOp', 'FunctionToPointerDecay', 'ConstructorConversion', 'ArrayToPointerDecay'):
                 return self.expr(inner[0], cx)
             if ck == 'IntegralCast':
                 b, t = self.expr(inner[0], cx)
@@ -282,6 +292,10 @@ class Translator:
             return [], '(%s)' % n['value']
         if k == 'FloatingLiteral':
             return [], double_lit(n['value'])
+        if k == 'CharacterLiteral':
+            return [], '(%s)' % n['value']
+        if k == 'StringLiteral':
+            return [], n['value'] + '%string'
         if k == 'CXXBoolLiteralExpr':
             return [], 'true' if n['value'] else 'false'
         if k == 'CXXThisExpr':
@@ -346,7 +360,16 @@ class Translator:
                 return b, '(negb (opt_is_some %s))' % t
             if cal[0] == 'size':
                 b, t = self.expr(cal[1], cx)
-                return b, '(zlen %s)' % t
+                return b, ('(str_len %s)' if self.is_string(cal[1]) else '(zlen %s)') % t
+            if cal[0] == 'empty':
+                b, t = self.expr(cal[1], cx)
+                return b, ('(Z.eqb (str_len %s) 0)' if self.is_string(cal[1]) else '(Z.eqb (zlen %s) 0)') % t
+            if cal[0] == 'stridx':
+                b1, t1 = self.expr(cal[1], cx)
+                b2, t2 = self.expr(cal[2], cx)
+                return b1 + b2, '(str_at %s %s)' % (t1, t2)
+            if cal[0] == 'find':
+                raise Unsupported('std::string::find outside a comparison with npos')
             if cal[0] == 'deref':
                 b, t = self.expr(cal[1], cx)
                 v = cx.fresh('deref')
@@ -414,6 +437,10 @@ class Translator:
         self.globals[nm] = t
         return t
 
+    def is_string(self, n):
+        q = self.strip(n).get('type', {}).get('qualType', '').replace('const ', '').replace('&', '').strip()
+        return q in ('std::string', 'std::basic_string<char>', 'string', 'basic_string<char>')
+
     def is_optional(self, n):
         return 'optional' in self.strip(n).get('type', {}).get('qualType', '')
 
@@ -437,6 +464,18 @@ class Translator:
             else:
                 m = '(if %s then Ok true else %s)' % (tl, self.wrap(br, 'Ok ' + tr))
             return bl + [(v, m)], v
+        if op in ('==', '!='):
+            for a, o in ((l, r), (r, l)):
+                sa = self.strip(a)
+                so = self.strip(o)
+                if sa.get('kind') == 'CXXMemberCallExpr' and so.get('kind') == 'DeclRefExpr' and \
+                        so.get('referencedDecl', {}).get('name') == 'npos':
+                    cal = self.callee(sa)
+                    if cal and cal[0] == 'find':
+                        b1, t1 = self.expr(cal[1], cx)
+                        b2, t2 = self.expr(cal[2], cx)
+                        e = '(str_contains %s %s)' % (t1, t2)
+                        return b1 + b2, ('(negb %s)' % e if op == '==' else e)
         bl, tl = self.expr(l, cx)
         br, tr = self.expr(r, cx)
         lt = self.ctype(l['type']['qualType'])
@@ -518,6 +557,8 @@ class Translator:
         """translate statement list followed by continuation `cont` (None = falls off the end)"""
         if not lst:
             if cont is None:
+                if cx.rty == 'unit':
+                    return self.ret('tt', cx)
                 raise Unsupported('control reaches end of %s without return' % cx.fname)
             return cont()
         s, rest = lst[0], lst[1:]
@@ -568,6 +609,9 @@ class Translator:
             nm = tgt['referencedDecl']['name']
             b, t = self.expr(s['inner'][1], cx)
             return self.emit_binds(b, 'let %s : %s := %s in\n%s' % (cname(nm), cx.types[nm], t, nxt()), cx)
+        if k in ('CallExpr', 'CXXMemberCallExpr') and self.callee(s) and self.callee(s)[0] == 'fn':
+            b, t = self.expr(s, cx)
+            return self.emit_binds(b, nxt(), cx)
         if k == 'CXXOperatorCallExpr':
             cal = self.callee(s)
             if cal and cal[0] == 'assign':
